@@ -2,7 +2,7 @@
 META = {
     "level": "exploration",
     "technique": "runtime monitoring of real concurrent publishes on an in-process grid: stateless DFS over message-delivery orders (re-execution, sleep sets, visited set on per-process delivery projections) plus seeded random schedules; wire recorder reading each slot's pre-state from disk at delivery time, survey knowledge derived from the answers each client received",
-    "text": "2-3 independent real clients (own NodeMaker each) hold the same write-cap and publish concurrently (overwrite, upload with own or stale servermap, modify with retry/backoff, in-place update) to real StorageServers. Refuting events: a server applies a write whose slot pre-state (parsed from the share file just before the server method runs) differs from what that client last observed for the slot in the answers it received; an operation succeeds although a write of its last publish attempt was refused or revealed a version the client had never seen; after all writers finished with (publishes+1)*k <= distinct shares, no version has k distinct shares on disk (independent scan) or a fresh client's MODE_CHECK map update + download does not recover a written content; a lone writer fails. DFS is exhaustive only on the configurations counted in dfs_configs_exhausted.",
+    "text": "2-3 independent real clients (own NodeMaker each) hold the same write-cap and publish concurrently (overwrite, upload with own or stale servermap, modify with retry/backoff, in-place update) to real StorageServers. Refuting events: a server applies a write whose slot pre-state (parsed from the share file just before the server method runs) differs from what that client last observed for the slot in the answers it received; an operation succeeds although a write of its last publish attempt was refused, or although the server that processed one of its writes held at that moment (ground truth read from the share files, other share numbers included) a version the client had never been shown and was not writing there; after all writers finished with (publishes+1)*k <= distinct shares, no version has k distinct shares on disk (independent scan) or a fresh client's MODE_CHECK map update + download does not recover a written content; a lone writer fails. DFS is exhaustive only on the configurations counted in dfs_configs_exhausted.",
     "note": "Trusts the in-process Wire (stands in for foolscap/HTTP transport; per-connection FIFO emulated on the 'free' profile), the virtual reactor, greedy execution of client-local steps (eventual queue, thread completions) between deliveries in DFS mode, and the harness-side share-prefix parser. Salts are made reproducible by substituting publish.os.urandom per case.",
 }
 LEVEL = "exploration"
@@ -263,10 +263,12 @@ def evaluate(ck, cfg, g, mon, ops, outcomes, initial, shnums_before, c0, monbox,
         if len(attempts) > 1:
             ck.hit("publish-retried-after-conflict")
         for (a_cs, a_writes) in attempts:
-            if revealed_unknown(M, mon, op["client"], a_cs, a_writes, None):
-                ck.hit("write-answer-reveals-unknown-version")
+            if met_unknown(M, mon, op["client"], a_cs, a_writes, None):
+                ck.hit("write-meets-unknown-version-on-server")
                 if all(w["wrote"] for w in a_writes):
-                    ck.hit("unknown-version-revealed-while-all-own-writes-applied")
+                    ck.hit("unknown-version-on-server-while-all-own-writes-applied")
+            if revealed_unknown(M, mon, op["client"], a_cs, a_writes, None):
+                ck.observe("write-answer-reveals-unknown-version")     # informational: depends on the server's answer
         if oc == "pending":
             any_pending = True
             ck.observe("writer-did-not-complete")
@@ -313,10 +315,12 @@ def evaluate(ck, cfg, g, mon, ops, outcomes, initial, shnums_before, c0, monbox,
                          % (op["client"], op["kind"], len(bad), M.csid(last_cs)),
                          dict(cfg=desc, refused=[mon.describe_write(w) for w in bad[:3]], outcomes=outcomes,
                               wire=mon.log_tail(40), schedule=out.get("witness")))
-        for (c_cs, sh, server) in revealed_unknown(M, mon, op["client"], last_cs, last, ck):
-            ck.violation("publish-succeeds-despite-unknown-version-revealed",
-                         "%s %s reported success although the answer from %s showed sh%d at %s, a version it had never seen"
-                         % (op["client"], op["kind"], server, sh, M.csid(c_cs)),
+        ck.mon("success-implies-no-unknown-version-met")
+        for (c_cs, sh, server) in met_unknown(M, mon, op["client"], last_cs, last, ck):
+            ck.violation("publish-succeeds-despite-unknown-version-on-server",
+                         "%s %s reported success although, when %s processed its write, that server held sh%d at %s -- a "
+                         "version (written by %s) this publisher had never been shown and was not writing there"
+                         % (op["client"], op["kind"], server, sh, M.csid(c_cs), mon.owner.get(c_cs)),
                          dict(cfg=desc, outcomes=outcomes, wire=mon.log_tail(40), schedule=out.get("witness")))
     # did any answer reveal a share the writer was not writing? (reach only)
     for w in writes:
@@ -394,6 +398,32 @@ def evaluate(ck, cfg, g, mon, ops, outcomes, initial, shnums_before, c0, monbox,
     elif bound:
         ck.violation("no-version-recoverable-by-client-after-concurrent-writes",
                      "fresh client finds no recoverable version although the bound holds", witness)
+
+
+def met_unknown(M, mon, client, new_cs, attempt_writes, ck):
+    """Ground truth, read from the share files just before the server ran each write of one publish attempt:
+    (checkstring, shnum, server) of shares on that server which the publisher was not writing there and whose version
+    is neither its own new one nor one it had been shown before that moment."""
+    targeted = {}
+    for w in attempt_writes:
+        targeted.setdefault(w["server"], set()).add(w["shnum"])
+    seen = mon.seen.get(client, {})
+    done, out = set(), []
+    for w in attempt_writes:
+        rec = w["rec"]
+        if id(rec) in done or "vf_pre_all" not in rec:
+            continue
+        done.add(id(rec))
+        for sh, cs in rec["vf_pre_all"].items():
+            if sh in targeted[w["server"]] or cs is None or cs == new_cs:
+                continue
+            first_seen = seen.get(cs)
+            if first_seen is not None and first_seen < rec.get("tick_srv", 0):
+                if ck is not None:
+                    ck.skip("other-share-of-already-known-version-on-server")
+                continue
+            out.append((cs, sh, w["server"]))
+    return out
 
 
 def revealed_unknown(M, mon, client, new_cs, attempt_writes, ck):
@@ -630,7 +660,7 @@ def _run(ck):
                        "mapupdate-agrees-with-disk-scan", "lone-writer-succeeds")
     ck.require_reach("write-refused-by-test-vector", "uncoordinated-write-error-reported", "writer-succeeded",
                      "writes-of-two-publishers-applied", "bound-met", "bound-exceeded",
-                     "write-answer-reveals-unknown-version", "unknown-version-revealed-while-all-own-writes-applied")
+                     "write-meets-unknown-version-on-server", "unknown-version-on-server-while-all-own-writes-applied")
     ck.assumptions.append("client-local steps (eventual queue turns, thread completions, due timers) run greedily "
                           "between message deliveries during DFS; random mode interleaves them freely")
     ck.assumptions.append("exhaustive=true refers to the DFS configurations listed in dfs_exhausted_sample/"
@@ -642,7 +672,7 @@ def _run(ck):
 #   c12-testv-compare-always-true                 storage/mutable.py  -> write-applied-over-version-changed-since-survey
 #   c12-empty-slot-test-dropped                   storage/server.py   -> write-applied-over-version-changed-since-survey ("vanish" cases)
 #   c12-publisher-ignores-refused-write           mutable/publish.py  -> publish-succeeds-despite-refused-write
-#   c12-surprise-detection-dropped / -inverted    mutable/publish.py  -> publish-succeeds-despite-unknown-version-revealed
+#   c12-surprise-detection-dropped / -inverted    mutable/publish.py  -> publish-succeeds-despite-unknown-version-on-server
 #   c12-sdmf-/mdmf-writes-carry-no-test           mutable/layout.py   -> write-applied-over-version-changed-since-survey
 #   c12-set-checkstring-omitted-for-known-shares  mutable/publish.py  -> uncontended-publish-fails (writes fall back to "must not exist")
 #   c12-sdmf-set-checkstring-noop                 mutable/layout.py   -> uncontended-publish-fails
